@@ -78,6 +78,26 @@ impl ObjectWriterBuilder for MonBuilder {
         sh.created.insert(*toi, n + 1);
         let ans = if sh.script.builder.is_empty() { 'S' } else { sh.script.builder[n.min(sh.script.builder.len() - 1)] };
         sh.log.push(format!("c~B~{:x}~{}", toi, ans));
+        sh.log.push(format!(
+            "c~M~{:x}~{}~{}",
+            toi,
+            n,
+            meta_desc(
+                &_meta.content_location,
+                _meta.content_type.as_deref(),
+                _meta.content_length.map(|x| x as u64),
+                _meta.transfer_length.map(|x| x as u64),
+                _meta.md5.as_deref(),
+                _meta.groups.as_deref(),
+                _meta.e_tag.as_deref(),
+                &match _meta.cache_control {
+                    flute::receiver::writer::ObjectCacheControl::NoCache => "N".to_string(),
+                    flute::receiver::writer::ObjectCacheControl::MaxStale => "S".to_string(),
+                    flute::receiver::writer::ObjectCacheControl::ExpiresAt(t) => format!("E{}", t.duration_since(UNIX_EPOCH).map(|d| d.as_secs()).unwrap_or(0)),
+                    flute::receiver::writer::ObjectCacheControl::ExpiresAtHint(_) => "H".to_string(),
+                }
+            )
+        ));
         match ans {
             'A' => ObjectWriterBuilderResult::ObjectAlreadyReceived,
             'X' => ObjectWriterBuilderResult::Abort,
@@ -142,6 +162,31 @@ impl ObjectWriter for MonWriter {
     fn enable_md5_check(&self) -> bool {
         self.md5
     }
+}
+
+#[allow(clippy::too_many_arguments)]
+fn meta_desc(
+    cl: &str,
+    ctype: Option<&str>,
+    clen: Option<u64>,
+    tlen: Option<u64>,
+    md5: Option<&str>,
+    groups: Option<&[String]>,
+    etag: Option<&str>,
+    cache: &str,
+) -> String {
+    let h = |o: Option<&str>| o.map(|x| hex(x.as_bytes())).unwrap_or("-".into());
+    format!(
+        "{}~{}~{}~{}~{}~{}~{}~{}",
+        hex(cl.as_bytes()),
+        h(ctype),
+        clen.map(|x| format!("{:x}", x)).unwrap_or("-".into()),
+        tlen.map(|x| format!("{:x}", x)).unwrap_or("-".into()),
+        h(md5),
+        groups.map(|g| if g.is_empty() { "-".to_string() } else { g.iter().map(|x| hex(x.as_bytes())).collect::<Vec<_>>().join(".") }).unwrap_or("-".into()),
+        h(etag),
+        cache
+    )
 }
 
 fn kv<'a>(toks: &'a [&'a str]) -> HashMap<&'a str, &'a str> {
@@ -282,12 +327,28 @@ pub fn build_session(c: &HashMap<&str, &str>, objs: &[Vec<&str>]) -> Option<Sess
     let fdte: u16 = c.get("fdte").and_then(|x| x.parse().ok()).unwrap_or(1400);
     let session_oti = Oti::new_no_code(fdte, 64);
     let ep = UDPEndpoint::new(None, "224.0.0.1".to_string(), 1234);
+    if let Some(pq) = c.get("pq") {
+        scfg.priority_queues.clear();
+        for item in pq.split(',') {
+            let kvp: Vec<&str> = item.split(':').collect();
+            scfg.priority_queues.insert(kvp[0].parse().ok()?, flute::sender::PriorityQueue::new(kvp.get(1).and_then(|x| x.parse().ok()).unwrap_or(1)));
+        }
+    }
+    if let Some(g) = c.get("sgroups") {
+        scfg.groups = Some(g.split(',').map(|x| x.to_string()).collect());
+    }
+    if let Some(fc) = c.get("fcar") {
+        scfg.fdt_carousel_mode = flute::sender::CarouselRepeatMode::DelayBetweenTransfers(Duration::from_millis(fc.parse().ok()?));
+    }
     let mut sender = Sender::new(ep, 1, &session_oti, &scfg);
     let tc_count: u32 = c.get("tc").and_then(|x| x.parse().ok()).unwrap_or(1);
     let cenc = cenc_of(c.get("cenc").copied().unwrap_or("null"));
+    let car = c.get("car").copied().unwrap_or("n");
+    let src = c.get("src").copied().unwrap_or("buf");
     let mut tois = Vec::new();
     let mut contents = Vec::new();
     let mut tables = Vec::new();
+    let mut tmpfiles: Vec<std::path::PathBuf> = Vec::new();
     for (i, o) in objs.iter().enumerate() {
         let len: usize = o[1].parse().ok()?;
         let pat: usize = o[2].parse().ok()?;
@@ -297,32 +358,106 @@ pub fn build_session(c: &HashMap<&str, &str>, objs: &[Vec<&str>]) -> Option<Sess
         tc.cenc = cenc;
         tc.inband_cenc = c.get("icenc").copied().unwrap_or("0") == "1";
         tc.oti = Some(obj_oti.clone());
-        if o.get(3).copied().unwrap_or("0") == "1" {
-            tc.cache_control = Some(CacheControl::NoCache);
-        }
+        tc.carousel_mode = match &car[0..1] {
+            "d" => Some(flute::sender::CarouselRepeatMode::DelayBetweenTransfers(Duration::from_millis(car[1..].parse().ok()?))),
+            "i" => Some(flute::sender::CarouselRepeatMode::IntervalBetweenStartTimes(Duration::from_millis(car[1..].parse().ok()?))),
+            _ => None,
+        };
+        let nocache = o.get(3).copied().unwrap_or("0") == "1";
         let md5 = o.get(4).copied().unwrap_or("1") == "1";
-        let url = url::Url::parse(&format!("file:///obj{}", i)).unwrap();
-        let obj = ObjectDesc::create_from_buffer(content.clone(), "a/b", &url, md5, tc).ok()?;
+        let prio: u32 = o.get(5).and_then(|x| x.parse().ok()).unwrap_or(0);
+        let variant: usize = o.get(6).and_then(|x| x.parse().ok()).unwrap_or(0);
+        // metadata variants (content type, groups, ETag, cache directive)
+        let ctype = ["a/b", "text/plain; charset=utf-8", "application/x-\u{e9}t\u{e9}", "x/&<>\"'"][variant % 4];
+        if variant / 4 % 2 == 1 {
+            tc.groups = Some(vec!["g1".to_string(), format!("grp&{}", i)]);
+        }
+        if variant / 8 % 2 == 1 {
+            tc.e_tag = Some(format!("\"etag-{}\"", pat));
+        }
+        let cache_desc = if nocache {
+            tc.cache_control = Some(CacheControl::NoCache);
+            "N".to_string()
+        } else {
+            match variant / 16 % 3 {
+                1 => {
+                    tc.cache_control = Some(CacheControl::MaxStale);
+                    "S".to_string()
+                }
+                2 => {
+                    let at = UNIX_EPOCH + Duration::from_secs(BASE_S + 5000 + i as u64);
+                    tc.cache_control = Some(CacheControl::ExpiresAt(at));
+                    format!("E{}", BASE_S + 5000 + i as u64)
+                }
+                _ => "H".to_string(),
+            }
+        };
+        let groups_given = tc.groups.clone();
+        let etag_given = tc.e_tag.clone();
+        let url = url::Url::parse(&format!("file:///dir%20{}/obj{}?q=a&b=<{}>", variant, i, pat)).unwrap();
+        let obj = match src {
+            "stream" => {
+                if cenc != Cenc::Null {
+                    return None;
+                }
+                let cs = Box::new(crate::c08::ChunkStream { data: content.clone(), pos: 0, sched: vec![3, 1, 7, 2, 5], i: 0, armed: true });
+                ObjectDesc::create_from_stream(cs, ctype, &url, md5, tc).ok()?
+            }
+            "file" => {
+                if cenc != Cenc::Null {
+                    return None;
+                }
+                let path = std::env::temp_dir().join(format!("fluteh-c01-{}-{}-{}.bin", std::process::id(), i, pat));
+                std::fs::write(&path, &content).ok()?;
+                tmpfiles.push(path.clone());
+                ObjectDesc::create_from_file(&path, Some(&url), ctype, false, md5, tc).ok()?
+            }
+            _ => ObjectDesc::create_from_buffer(content.clone(), ctype, &url, md5, tc).ok()?,
+        };
         let transfer = match &obj.source {
             flute::sender::ObjectDataSource::Buffer(b) => b.clone(),
-            _ => Vec::new(),
+            _ => content.clone(),
         };
-        let toi = sender.add_object(0, obj).ok()?;
-        tables.push(format!("G~{:x}~{}~{}~{}", toi, cenc_name(&cenc), hex(&transfer), hex(&content)));
-        tois.push(toi);
-        contents.push(content);
+        let md5_given = obj.md5.clone();
+        let (clen_given, tlen_given) = (obj.content_length, obj.transfer_length);
+        match sender.add_object(prio, obj) {
+            Ok(toi) => {
+                tables.push(format!("G~{:x}~{}~{}~{}", toi, cenc_name(&cenc), hex(&transfer), hex(&content)));
+                // what the sender was given, in the vocabulary of the writer's metadata
+                let all_groups: Option<Vec<String>> = {
+                    let mut g: Vec<String> = c.get("sgroups").map(|x| x.split(',').map(|y| y.to_string()).collect()).unwrap_or_default();
+                    if let Some(gg) = &groups_given {
+                        g.extend(gg.iter().cloned());
+                    }
+                    if g.is_empty() { None } else { Some(g) }
+                };
+                tables.push(format!(
+                    "A~{:x}~{}~{}",
+                    toi,
+                    tc_count,
+                    meta_desc(url.as_str(), Some(ctype), Some(clen_given), Some(tlen_given), md5_given.as_deref(), all_groups.as_deref(), etag_given.as_deref(), &cache_desc)
+                ));
+                tois.push(toi);
+                contents.push(content);
+            }
+            Err(_) => {
+                tables.push(format!("R~{}~{:x}", i, tlen_given));
+            }
+        }
     }
     let mut now = 0u64;
     sender.publish(t_ms(now)).ok()?;
     let mut genuine: Vec<Vec<u8>> = Vec::new();
     let mut idle = 0;
-    while idle < 3 {
+    let maxpk: usize = c.get("maxpk").and_then(|x| x.parse().ok()).unwrap_or(20000);
+    let idle_max: u64 = c.get("idlems").and_then(|x| x.parse::<u64>().ok()).map(|ms| ms / 10 + 3).unwrap_or(3);
+    while idle < idle_max {
         match sender.read(t_ms(now)) {
             Some(d) => {
                 genuine.push(d);
                 idle = 0;
-                if genuine.len() > 20000 {
-                    return None;
+                if genuine.len() >= maxpk {
+                    break;
                 }
             }
             None => {
@@ -330,6 +465,9 @@ pub fn build_session(c: &HashMap<&str, &str>, objs: &[Vec<&str>]) -> Option<Sess
                 now += 10;
             }
         }
+    }
+    for p in tmpfiles {
+        let _ = std::fs::remove_file(p);
     }
     // optional rewrite of the FDT instances (a foreign sender): fdtmut=nooti strips every FEC-OTI
     // attribute, fdtmut=notl strips Transfer-Length; the instance is re-packetised with flute's own
@@ -349,9 +487,9 @@ pub fn build_session(c: &HashMap<&str, &str>, objs: &[Vec<&str>]) -> Option<Sess
             }
         }
     }
-    for (_, m) in parts {
+    for (id, m) in parts {
         let xml: Vec<u8> = m.values().flat_map(|v| v.iter().copied()).collect();
-        tables.push(format!("F~{}~{}", hex(&xml), instance_desc(&xml)));
+        tables.push(format!("F~{}~{}~{:x}~{:x}", hex(&xml), instance_desc(&xml), id, m.len()));
     }
     Some(Session { genuine, tables, tois, contents })
 }
@@ -519,6 +657,10 @@ fn channel(kind: &str, seed: u64, arg: u64, g: &[Vec<u8>]) -> Vec<Vec<u8>> {
         "late" => {
             let skip = (arg as usize).min(v.len());
             v = v[skip..].to_vec();
+        }
+        "mask" => {
+            // bit i of arg set = packet i is delivered
+            v = v.into_iter().enumerate().filter(|(i, _)| *i < 64 && (arg >> i) & 1 == 1).map(|(_, p)| p).collect();
         }
         "nofdt" | "holes" | "halffdt" => {
             // nofdt: no TOI-0 packet at all; holes: the symbol with ESI = arg of every block is lost;
@@ -859,13 +1001,164 @@ fn gen_mem(args: &Args, emit: &mut dyn FnMut(String)) {
     }
 }
 
-pub fn run(args: &Args, mem: bool) {
+/// C01: clean channel, every emitted packet in order, writers that always store
+fn gen_session(args: &Args, emit: &mut dyn FnMut(String)) {
+    let thorough = args.tier == "thorough";
+    let mut rng = Rng::new(args.seed.wrapping_mul(31337).wrapping_add(args.shard.0 * 101 + 7));
+    let count = if thorough { 20000 } else { 2000 } / args.shard.1;
+    let fecs = ["nocode", "rs28", "rs28us", "raptorq", "raptor"];
+    for i in 0..count {
+        let fec = *rng.pick(&fecs);
+        let e = *rng.pick(&[4u32, 8, 16, 64]);
+        let b = if fec == "raptor" { *rng.pick(&[4u32, 5, 6, 10]) } else { *rng.pick(&[1u32, 2, 3, 4, 8]) };
+        let par = if fec == "nocode" { 0 } else { rng.range(1, 3) };
+        let cenc = if rng.chance(1, 4) { *rng.pick(&["zlib", "deflate", "gzip"]) } else { "null" };
+        let src = if cenc == "null" { *rng.pick(&["buf", "buf", "stream", "file"]) } else { "buf" };
+        let nobj = rng.range(1, 4);
+        let two_queues = rng.chance(1, 3);
+        let mut osecs = Vec::new();
+        for k in 0..nobj {
+            let eb = (e * b) as u64;
+            // sizes at and around symbol, block and a_large/a_small boundaries, and (rarely) above the scheme's maximum
+            let len = match rng.below(12) {
+                0 => 0,
+                1 => 1,
+                2 => e as u64 - 1,
+                3 => e as u64,
+                4 => e as u64 + 1,
+                5 => eb,
+                6 => eb + 1,
+                7 => eb * 2 + rng.below(e as u64 + 1),
+                8 if fec == "rs28" || fec == "raptorq" => eb * 255 + rng.below(3),   // at / above 255 blocks
+                _ => rng.range(1, eb * 4 + 2),
+            };
+            let prio = if two_queues && rng.chance(1, 2) { 3 } else { 0 };
+            osecs.push(format!("O {} {} {} {} {} {}", len, k + i % 17, if rng.chance(1, 8) { 1 } else { 0 }, rng.below(2), prio, rng.below(48)));
+        }
+        emit(format!(
+            "V fec={} e={} b={} par={} cenc={} fti={} icenc={} mode={} il={} once={} maxerr=0 cache=10485760 md5={} tc={} bld=S opn=1 pq={} src={}{} ; {} ; X all 1 0",
+            fec,
+            e,
+            b,
+            par,
+            cenc,
+            rng.below(2),
+            rng.below(2),
+            if rng.chance(1, 2) { "full" } else { "bt" },
+            rng.range(1, 4),
+            rng.below(2),
+            rng.below(2),
+            *rng.pick(&[1u32, 1, 2, 3]),
+            if two_queues { format!("0:{},3:{}", rng.below(3), rng.below(3)) } else { format!("0:{}", rng.below(4)) },
+            src,
+            if rng.chance(1, 5) { " sgroups=sg1,sg2" } else { "" },
+            osecs.join(" ; ")
+        ));
+    }
+}
+
+/// C02: order-preserving loss and duplication; every subset of small sessions
+fn gen_loss(args: &Args, emit: &mut dyn FnMut(String)) {
+    let thorough = args.tier == "thorough";
+    let mut rng = Rng::new(args.seed.wrapping_mul(271).wrapping_add(11));
+    let fecs = ["nocode", "rs28", "rs28us", "raptorq"];
+    let mut n = 0u64;
+    // exhaustive: all subsets of sessions of at most 12 (quick) / 13 (thorough) packets
+    let maxbits = if thorough { 13 } else { 11 };
+    for fec in fecs.iter() {
+        for (e, b, len, par, il, tc, fti) in [(4u32, 2u32, 14u64, 1u32, 1u32, 1u32, 1u32), (4, 3, 20, 2, 2, 1, 0), (8, 2, 30, 1, 2, 1, 1), (4, 2, 8, 1, 1, 2, 1)] {
+            let par = if *fec == "nocode" { 0 } else { par };
+            let head = format!(
+                "V fec={} e={} b={} par={} cenc=null fti={} icenc=0 mode=full il={} once=1 maxerr=0 cache=10485760 md5=1 tc={} bld=S opn=1 ; O {} 3 0 1",
+                fec, e, b, par, fti, il, tc, len
+            );
+            // the number of packets of the session is not known here: enumerate masks up to maxbits,
+            // packets beyond that index are dropped (the mask channel keeps only indices < 64 with their bit set)
+            for mask in 0u64..(1u64 << maxbits) {
+                n += 1;
+                if n % args.shard.1 != args.shard.0 {
+                    continue;
+                }
+                emit(format!("{} ; X mask 1 {}", head, mask));
+            }
+        }
+    }
+    // sampled loss / duplication on larger sessions, all schemes, cenc, signalling modes, interleave, transfer counts
+    let count = if thorough { 20000 } else { 1500 };
+    for i in 0..count {
+        if (i as u64) % args.shard.1 != args.shard.0 {
+            for _ in 0..12 {
+                rng.next();
+            }
+            continue;
+        }
+        let fec = *rng.pick(&["nocode", "rs28", "rs28us", "raptorq", "raptor"]);
+        let e = *rng.pick(&[4u32, 8, 16]);
+        let b = if fec == "raptor" { *rng.pick(&[4u32, 5, 6]) } else { *rng.pick(&[2u32, 3, 4, 6]) };
+        let par = if fec == "nocode" { 0 } else { rng.range(1, 3) };
+        let eb = (e * b) as u64;
+        let len = rng.range(1, eb * 5 + 3);
+        let (xk, xa) = match rng.below(3) {
+            0 => ("sub", rng.range(60, 97)),
+            1 => ("lossdup", rng.range(70, 97)),
+            _ => ("dup", 0),
+        };
+        emit(format!(
+            "V fec={} e={} b={} par={} cenc={} fti={} icenc={} mode={} il={} once=1 maxerr=0 cache=10485760 md5=1 tc={} bld=S opn=1 ; O {} {} 0 1 ; X {} {} {}",
+            fec, e, b, par,
+            if rng.chance(1, 6) { "zlib" } else { "null" },
+            rng.below(2), rng.below(2),
+            if rng.chance(1, 2) { "full" } else { "bt" },
+            rng.range(1, 4),
+            rng.range(1, 3),
+            len, i % 19, xk, rng.below(1 << 30), xa
+        ));
+    }
+}
+
+/// C16: carousel sessions, the receiver joins at every packet offset of the first cycle
+fn gen_carousel(args: &Args, emit: &mut dyn FnMut(String)) {
+    let thorough = args.tier == "thorough";
+    let mut rng = Rng::new(args.seed.wrapping_mul(911).wrapping_add(5));
+    let configs = if thorough { 60 } else { 12 };
+    let mut n = 0u64;
+    for ci in 0..configs {
+        let fec = *rng.pick(&["nocode", "rs28", "rs28us", "raptorq", "raptor"]);
+        let e = *rng.pick(&[8u32, 16]);
+        let b = if fec == "raptor" { 5 } else { *rng.pick(&[2u32, 3, 4]) };
+        let par = if fec == "nocode" { 0 } else { 1 };
+        let nobj = rng.range(1, 3);
+        let car = *rng.pick(&["d0", "d50", "i100"]);
+        let mut osecs = Vec::new();
+        for k in 0..nobj {
+            osecs.push(format!("O {} {} 0 1", rng.range(1, (e * b) as u64 * 3), k + ci));
+        }
+        let head = format!(
+            "V fec={} e={} b={} par={} cenc=null fti={} icenc={} mode={} il={} once=1 maxerr=0 cache=10485760 md5=1 tc=1 bld=S opn=1 car={} fcar={} idlems=300 maxpk={} ; {}",
+            fec, e, b, par, rng.below(2), rng.below(2),
+            if rng.chance(1, 2) { "full" } else { "bt" },
+            rng.range(1, 3), car, *rng.pick(&[0u32, 40, 100]), if thorough { 400 } else { 260 },
+            osecs.join(" ; ")
+        );
+        // join offsets: every packet index of (roughly) the first cycle
+        for off in 0..(if thorough { 80 } else { 50 }) {
+            n += 1;
+            if n % args.shard.1 != args.shard.0 {
+                continue;
+            }
+            emit(format!("{} ; X late 1 {}", head, off));
+        }
+    }
+}
+
+pub fn run(args: &Args, kind: &str) {
     if args.worker {
         worker_loop(eval, 2048);
         return;
     }
+    let mem = kind == "memrecv";
     let mut tr = Trace::new(args.out.as_deref());
-    let mut pool = WorkerPool::new(if mem { "memrecv" } else { "recv" }, 20);
+    let mut pool = WorkerPool::new(kind, 20);
     if let Some(rp) = &args.replay {
         for line in std::fs::read_to_string(rp).unwrap().lines() {
             let input = line.split('|').next().unwrap().trim();
@@ -875,8 +1168,14 @@ pub fn run(args: &Args, mem: bool) {
             let out = pool.eval(input);
             tr.line(&format!("{} | {}", input, out));
         }
-    } else if mem {
-        gen_mem(args, &mut |input: String| {
+    } else if mem || kind == "session" || kind == "loss" || kind == "carousel" {
+        let g: fn(&Args, &mut dyn FnMut(String)) = match kind {
+            "session" => gen_session,
+            "loss" => gen_loss,
+            "carousel" => gen_carousel,
+            _ => gen_mem,
+        };
+        g(args, &mut |input: String| {
             let out = pool.eval(&input);
             tr.line(&format!("{} | {}", input, out));
         });
